@@ -23,9 +23,33 @@ def tasks(tier, seed):
         dict(kind="custom", module="props.misc_tasks", fn="c11_static"),
         dict(kind="custom", module="props.bounded", fn="run_script", script="c11_isolation", seed=seed, n=3 if tier == "quick" else 25, props=["C11"]),
     ]
-    for hs in ("1", "2", "3"):
-        ts.append(dict(kind="custom", module="props.bounded", fn="run_script", script="c11_isolation", seed=seed, n=1, props=["C11"], params={"mode": "hashseed"}, env={"PYTHONHASHSEED": hs}))
+    ts.append(dict(kind="custom", module="props.C11", fn="hashseed_task", seed=seed, seeds=["1", "2", "3", "4"] if tier == "quick" else [str(i) for i in range(1, 17)]))
     return ts
+
+
+def hashseed_task(task):
+    """bounded: the same backtests in separate processes under different PYTHONHASHSEED values: universe column order,
+    member order and final values must be identical"""
+    import os
+    from pyvc.replay import Scratch
+
+    here = os.path.dirname(os.path.abspath(__file__))
+    src = "SEED=%d\nN=1\nPARAMS={'mode':'hashseed'}\n" % task.get("seed", 0) + open(os.path.join(here, "scripts", "c11_isolation.py")).read()
+    seen = {}
+    with Scratch() as sc:
+        for hs in task["seeds"]:
+            d = sc.run_json(src, env={"PYTHONHASHSEED": hs})
+            if d.get("error") or "columns" not in d:
+                return dict(results=[], violations=[], error="hashseed run failed: %s" % str(d)[:500])
+            seen[hs] = (d.get("columns"), d.get("final"))
+    distinct = {repr(v) for v in seen.values()}
+    out = dict(results=[], samples=[dict(hashseeds=task["seeds"], columns=list(seen.values())[0][0])], violations=[],
+               bounded=dict(name="c11_hashseed", evaluations=len(seen), distinct_nontrivial=len(seen), rule="flat and nested backtests in fresh processes under different PYTHONHASHSEED: universe columns, member order and final values identical", bound="%d hash seeds" % len(seen)))
+    if len(distinct) > 1:
+        w = dict(clause="results-depend-on-hash-seed", by_hashseed={k: v[0] for k, v in seen.items()})
+        out["violations"].append(dict(id="bounded/c11_hashseed/results-depend-on-hash-seed", kind="bounded", props=["C11"], verdict="refuted", backend="real-execution", secs=0.0, func="c11_isolation", model=w,
+                                      replay_inline=dict(reproduced=True, witness=w, script="c11_isolation", seed=task.get("seed", 0))))
+    return out
 
 
 def post(results, tier, seed):
